@@ -21,6 +21,19 @@ def rb(rng, n):
     return bytes(rng.getrandbits(8) for _ in range(n))
 
 
+def vi(x):
+    l = vsize(x)
+    return ((({1: 0, 2: 1, 4: 2, 8: 3}[l]) << (8 * l - 2)) | x).to_bytes(l, 'big').hex()
+
+
+def fr(t, payload_hex):
+    return vi(t) + vi(len(payload_hex) // 2) + payload_hex
+
+
+KNOWN_SETTINGS = [1, 6, 7, 8, 0x33, 0x2b603742, 0x2b603743]
+REQ_KINDS = ['get', 'post', 'connect', 'big', 'nometh', 'badqpack', 'data1st', 'unk', 'none']
+
+
 def rd_varint(b, i):
     """(value, next index) or None"""
     if i >= len(b):
@@ -152,12 +165,18 @@ class P(Property):
             'streams; client: send_request/send_data/send_trailers/finish/shutdown) x configurations (grease on/off, all setting values at '
             'varint boundaries, request larger than max_field_section_size -> automatic 431) x write budgets (unlimited; or every write '
             'first Pending then 1..8 bytes per grant, thorough: every quantum 1..8 and initial budget 0..8 on every short program). '
+            'the scripted peer also sends arbitrary further control-stream frames (GOAWAY incl. increasing ids, MAX_PUSH_ID, CANCEL_PUSH, reserved/unknown types, '
+            'non-empty SETTINGS with every known id, second SETTINGS, frames illegal there) and requests of every kind (GET, POST with body and trailers, CONNECT, '
+            'oversize, malformed, undecodable, DATA first, FIN / RESET / nothing before HEADERS, STOP_SENDING), each followed by accept/poll under budgets: '
+            'the model writes nothing there but the grease stream and the final GOAWAY, so any extra byte is a correspondence violation. '
             'every stream log of the real code is judged by the extracted RFC 9114 reference parser. '
             'non-trivial = wb cases with a consumption script or payload, wr cases in which h3 wrote on a request stream or sent GOAWAY')
     partial_note = ('T3 covers the send-side API surface (send_request/send_response/send_data/send_trailers/finish/shutdown/drop/stop, '
                     'setup, grease stream, automatic 431); an application dropping a write future after a partial write leaves a partial '
                     'frame on the wire by construction of the quic trait - excluded by the premise "write futures are polled to completion"; '
-                    'SendRequest clones and h3-webtransport stream headers are covered only at the WriteBuf level (T1/T2)')
+                    'CLOSED WORLD: T3 is about the write sites of today (pinned by the census lemma C14_write_site_census) driven by the op alphabet of Model/Writers.v; '
+                    'not in the alphabet: RequestStream::split(), SendRequest clones, h3-webtransport headers (WriteBuf level only) and direct calls of the public '
+                    'conn.inner.send_control_stream_headers()/shutdown::<T>() - calling the former twice writes a second SETTINGS (harness op rehdr, corpus/C14/rehdr_finding.txt)')
     trusted_extra = [
         'SimQuic in-memory transport and deterministic executor (harness/src/simquic.rs); the scripted peer sends one fixed GET request per stream',
         'QPACK field-section bytes inside HEADERS frames are not compared (C11); grease identifiers are compared by form (31N+33, < 2^62)',
@@ -270,17 +289,80 @@ class P(Property):
         n = rng.choice([0, 0, 1, 2, 3, 5, 8, 17, 63, 64, 65, 200, rng.randint(0, 600)])
         return 'data:' + self._chunks(rng, n)
 
+    # ---- what the scripted peer can put on its control stream
+    def _peer_settings(self, rng):
+        r = rng.random()
+        if r < 0.3:
+            return '0400'
+        ids = [i for i in KNOWN_SETTINGS if rng.random() < 0.6] if r < 0.85 else list(KNOWN_SETTINGS)
+        rng.shuffle(ids)
+        pl = ''
+        for i in ids:
+            if i == 6:      # the peer's MAX_FIELD_SECTION_SIZE: large enough for every message of these programs
+                v = rng.choice([1000, 16383, 16384, 2 ** 30, M62 - 1])
+            elif i in (8, 0x33, 0x2b603742):
+                v = rng.choice([0, 1])
+            else:
+                v = rng.choice([0, 1, 63, 64, 4096, 2 ** 30, M62 - 1])
+            pl += vi(i) + vi(v)
+        if rng.random() < 0.5:
+            pl += vi(31 * rng.randrange(GREASE_RANGE) + 33) + vi(rng.getrandbits(rng.choice([6, 30, 62])))
+        if rng.random() < 0.2:
+            pl += vi(rng.choice([0x4d44, 9, 10, 0xffd277])) + vi(rng.getrandbits(14))
+        return fr(4, pl)
+
+    def _peer_frame(self, rng, role):
+        r = rng.random()
+        if r < 0.30:      # GOAWAY (a client must be given a request id; both kinds are sent)
+            x = rng.choice([0, 0, 4, 8, 12, 64, 400, 2 ** 30, M62 - 4] if role == 'c' and rng.random() < 0.8 else
+                           [0, 1, 3, 4, 5, 63, 64, 16384, 2 ** 30, M62 - 1])
+            return fr(7, vi(x))
+        if r < 0.45:
+            return fr(13, vi(rng.choice([0, 5, 63, 64, 2 ** 30, M62 - 1])))
+        if r < 0.55:
+            return fr(3, vi(rng.choice([0, 7, 64, M62 - 1])))
+        if r < 0.80:      # reserved and unknown types, with and without payload
+            t = rng.choice([0x21, 0x40, 0x0f, 0x10, 31 * rng.randrange(GREASE_RANGE) + 33, 0x2b603742, M62 - 1])
+            return fr(t, rb(rng, rng.choice([0, 0, 1, 3, 17])).hex())
+        if r < 0.88:      # a second SETTINGS
+            return self._peer_settings(rng)
+        # not allowed on a control stream / malformed
+        return rng.choice(['0001aa', '0100', '050100', '0200', '0600', '0800', '0900', '07020001', '0700', '0d00', '0302ffff',
+                           fr(4, vi(2) + vi(0)), fr(4, vi(6) + vi(1000) + vi(6) + vi(1000)), '040106'])
+
+    def _peer_open(self, rng, role):
+        r = rng.random()
+        if r < 0.4:
+            return 'peer'
+        st = rng.choice([self._peer_settings(rng)] * 8 + [fr(4, vi(3) + vi(1)), '0700' + '00', fr(7, vi(0))])
+        more = ''.join(self._peer_frame(rng, role) for _ in range(rng.choice([0, 0, 0, 1, 2])))
+        return 'peer:00' + st + more
+
+    def _acc(self, rng):
+        if rng.random() < 0.6:
+            return 'acc'
+        k = rng.choice(REQ_KINDS)
+        e = rng.choice(['F', 'F', 'F', 'N', 'R256', 'R0', 'S268', 'S0'])
+        return 'acc:%s:%s' % (k, e)
+
     def _prog(self, rng, role, maxlen=12):
         ops = []
-        if rng.random() < 0.6:
-            ops.append('peer')
+        peer = rng.random() < 0.65
+        if peer:
+            ops.append(self._peer_open(rng, role))
         n = rng.randint(0, maxlen)
         opened = 0
         for _ in range(n):
             r = rng.random()
+            if peer and rng.random() < 0.12:
+                ops.append('pframe:' + ''.join(self._peer_frame(rng, role) for _ in range(rng.choice([1, 1, 2, 3]))))
+                continue
+            if rng.random() < 0.04:
+                ops.append(rng.choice(['sstop:%d' % rng.choice([0, 268]), 'recv' if role == 's' else 'poll']))
+                continue
             if role == 's':
                 if r < 0.22:
-                    ops.append('acc')
+                    ops.append(self._acc(rng))
                     opened += 1
                 elif r < 0.37:
                     ops.append('resp:%d' % rng.choice([200, 204, 404, 500, 103]))
@@ -333,10 +415,19 @@ class P(Property):
         's': ['-', 'peer', 'acc,resp:200,finish', 'peer,acc,resp:200,data:6869,finish', 'acc,data:-,data:01,trailers,finish',
               'acc,finish,acc,finish', 'peer,acc,resp:200,data:0102.0304.05,trailers,finish,shutdown:2', 'shutdown:0', 'shutdown:5,shutdown:1,shutdown:3',
               'acc,shutdown:0,acc', 'acc,acc,sel:0,resp:200,sel:1,resp:404,finish,sel:0,finish', 'acc,finish,finish,data:aa',
-              'peer,shutdown:1,acc,resp:200,finish,acc', 'acc,drop,shutdown:0,acc', 'acc,trailers,resp:200,data:00'],
+              'peer,shutdown:1,acc,resp:200,finish,acc', 'acc,drop,shutdown:0,acc', 'acc,trailers,resp:200,data:00',
+              'peer,pframe:0d0105,pframe:030100,pframe:2102aabb,acc,resp:200,finish', 'peer:00040007010c,acc,poll',
+              'peer,acc,pframe:070100,resp:200,finish,poll,drop,poll', 'peer,pframe:070104,pframe:070108,acc,shutdown:0',
+              'peer:0004030643e8,acc:post:F,recv,resp:200,data:aa,trailers,finish', 'peer,pframe:0400,acc,shutdown:1',
+              'acc:big:F,resp:200,finish,acc:nometh:F,acc:none:R256,acc:connect:F,resp:200,finish',
+              'acc:get:S268,resp:200,data:aa,finish,acc,resp:200,sstop:0,data:aa,finish', 'peer,pframe:0001aa,acc,shutdown:0',
+              'peer,acc:badqpack:F,acc,shutdown:0', 'acc:data1st:F,poll,shutdown:2'],
         'c': ['-', 'peer', 'req:GET,finish', 'peer,req:POST,data:6869,finish', 'req:GET,data:-,data:01,trailers,finish',
               'req:GET,finish,req:GET,finish', 'peer,req:PUT,data:0102.0304.05,trailers,finish,shutdown:0', 'shutdown:0,req:GET',
-              'req:GET,req:GET,sel:0,data:aa,sel:1,data:bb,finish,sel:0,finish', 'req:GET,finish,finish,data:aa', 'shutdown:0,shutdown:0'],
+              'req:GET,req:GET,sel:0,data:aa,sel:1,data:bb,finish,sel:0,finish', 'req:GET,finish,finish,data:aa', 'shutdown:0,shutdown:0',
+              'peer,pframe:070104,req:GET,poll', 'peer,req:GET,pframe:070103,req:GET,data:aa,finish,shutdown:0',
+              'peer,req:GET,pframe:0d0105,req:GET,finish', 'peer,pframe:2100,pframe:070100,pframe:070100,req:GET',
+              'peer:0004030643e8,req:POST,sstop:3,data:aa,finish', 'peer,pframe:0400,req:GET,finish,shutdown:0'],
     }
 
     def wr_cases(self, tier, rng):
